@@ -1,6 +1,7 @@
 CONSTANTS
   MaxToks = 4
   CloseOnError = FALSE
+  Cap = 0
   Drain = TRUE
 SPECIFICATION Spec
 INVARIANTS TypeOK OrderOK
